@@ -51,6 +51,22 @@ fn c06() -> Property {
                 cases_per_seed: 1,
             note: "scripted client writes SASL header, sasl-init, AMQP header and open at once; the real listener (PLAIN) reads both layers from one arbitrarily partitioned stream",
             },
+            Variant {
+                name: "incoming-frames-above-the-senders-own-limit",
+                weight: 1,
+                make: || Box::pin(scen::c10::run_client()),
+                max_steps: 3_000_000,
+                cases_per_seed: 1,
+            note: "C10's scripted fragmenting sender, which advertises a max-frame-size of 512, 1024 or 65536 for what it receives and sends frames of up to 1.3 KiB: the limit on incoming frames is the endpoint's own (client side)",
+            },
+            Variant {
+                name: "incoming-frames-above-the-senders-own-limit-listener",
+                weight: 1,
+                make: || Box::pin(scen::c10::run_listener()),
+                max_steps: 3_000_000,
+                cases_per_seed: 1,
+            note: "the same against a real listener",
+            },
         ],
         quick_runs: 20_000,
         thorough_runs: 2_000_000,
@@ -533,6 +549,14 @@ fn c11() -> Property {
                 cases_per_seed: 1,
                 note: "real client <-> real listener: a sender link detached and attached again by resume / resume_on_session / detach_then_resume_on_session, with sibling links on both sessions",
             },
+            Variant {
+                name: "duplicate-begin-vs-listener",
+                weight: 1,
+                make: || Box::pin(scen::c11r::run_duplicate_begin()),
+                max_steps: 3_000_000,
+                cases_per_seed: 1,
+                note: "real listener <-> scripted peer that sends a second begin on a channel whose session it has not ended: the channel must not get a second session",
+            },
         ],
         quick_runs: 5_000,
         thorough_runs: 200_000,
@@ -606,6 +630,14 @@ fn c02() -> Property {
                 max_steps: 3_000_000,
                 cases_per_seed: 1,
             note: "real sender(s) <-> scripted receiver producing arbitrary disposition histories",
+            },
+            Variant {
+                name: "scripted-sender-vs-real-receiver",
+                weight: 1,
+                make: || Box::pin(scen::c09::run_client_stream_only()),
+                max_steps: 3_000_000,
+                cases_per_seed: 1,
+                note: "scripted sender -> real receiver whose application disposes of every delivery (accept / release / modify, auto-accept, rejection of the ones that do not decode): every unsettled delivery is covered by a disposition on the wire",
             },
         ],
         quick_runs: 6_000,
@@ -790,14 +822,24 @@ fn c01() -> Property {
     Property {
         id: "C01",
         level: "exploration",
-        variants: vec![Variant {
-            name: "pair",
-            weight: 1,
-            make: || Box::pin(scen::c01::run()),
-            max_steps: 3_000_000,
-            cases_per_seed: 1,
-            note: "real client <-> real listener",
-        }],
+        variants: vec![
+            Variant {
+                name: "pair",
+                weight: 5,
+                make: || Box::pin(scen::c01::run()),
+                max_steps: 3_000_000,
+                cases_per_seed: 1,
+                note: "real client <-> real listener",
+            },
+            Variant {
+                name: "stream-with-undecodable-deliveries",
+                weight: 1,
+                make: || Box::pin(scen::c09::run_client_stream_only()),
+                max_steps: 3_000_000,
+                cases_per_seed: 1,
+                note: "scripted credit-respecting sender -> real receiver (automatic credit): single- and multi-frame deliveries, every second to sixth one undecodable (rejected by the application, which goes on): all of them come out, once, in order",
+            },
+        ],
         quick_runs: 6000,
         thorough_runs: 300_000,
         rule: "one run = one seeded configuration (frame sizes, windows, credit policy, settle modes, buffer sizes), workload (1-3 links, 1-40 messages, all section subsets, bodies around frame-size multiples), network behaviour and task schedule; non-trivial = at least one network fault/fragmentation event fired or at least one multi-frame message; distinct = distinct event-log hash (covers scheduler picks, wire bytes, delivery chunking)",
